@@ -5,7 +5,7 @@
 cd /verif || exit 2
 if ! git -C /repo diff --quiet; then echo "/repo has uncommitted changes; refusing"; exit 2; fi
 mkdir -p work/revert
-for c in 43adc19:C12 5f1dc9d:C13 b726e89:C10 cf3fa3b:C07 43f1677:C18 88b711c:C18 40639b7:C20 8a32cfd:C20 8314672:C20 f40623b:C18 a0dce47:C12 d9fa10c:C18 7508739:C18; do
+for c in 43adc19:C12 5f1dc9d:C13 b726e89:C10 cf3fa3b:C07 43f1677:C18 88b711c:C18 40639b7:C20 8a32cfd:C20 8314672:C20 f40623b:C18 a0dce47:C12 2654f36:C18 3263fbe:C18; do
   h=${c%%:*}; p=${c##*:}
   git -C /repo show "$h" --format= > work/revert/$h.diff
   if ! (cd /repo && git apply -R --check /verif/work/revert/$h.diff 2>/dev/null); then echo "$h does not reverse-apply cleanly (later fixes touch the same lines)"; continue; fi
